@@ -129,6 +129,48 @@ def drivers():
         from amr_kitchen.taste import Taster
         return [bool(Taster(p["A"], nofail=True, boxes_coordinates=True, verbose=0))]
 
+    def damaged(p, kind):
+        """A copy of A in which EVERY level-0 binary file is damaged the same way (so that every task has a finding)."""
+        import shutil
+        d = os.path.join(p["dir"], "bad_" + kind)
+        if not os.path.exists(d):
+            shutil.copytree(p["A"], d)
+            l0 = os.path.join(d, "Level_0")
+            if kind == "lengths":
+                for fn in sorted(os.listdir(l0)):
+                    if fn != "Cell_H":
+                        with open(os.path.join(l0, fn), "ab") as f:
+                            f.write(b"\x80" * 8)
+            else:
+                # every box line of the level header moved by 1000 cells along x: each file's headers disagree with it
+                import re
+                txt = open(os.path.join(l0, "Cell_H")).read()
+                txt = re.sub(r"^\(\((\d+),(.*?)\) \((\d+),", lambda m: "((%d,%s) (%d," % (int(m.group(1)) + 1000, m.group(2), int(m.group(3)) + 1000),
+                             txt, flags=re.M)
+                open(os.path.join(l0, "Cell_H"), "w").write(txt)
+        return d
+
+    def taste_report(d):
+        """What a user gets from taste on a bad plotfile: the error raised in failing mode, and in non-failing mode the
+        verdict and the findings printed, in the order printed."""
+        from amr_kitchen.taste import Taster
+        try:
+            Taster(d, verbose=0)
+            raised = "nothing raised"
+        except Exception as e:
+            raised = "%s: %s" % (type(e).__name__, e)
+        with core.quiet() as txt:
+            good = bool(Taster(d, nofail=True, verbose=0))
+        return [raised, good, txt.getvalue()]
+
+    @reg("taste.bad-lengths")
+    def _(p, out, serial):
+        return taste_report(damaged(p, "lengths"))
+
+    @reg("taste.bad-indices")
+    def _(p, out, serial):
+        return taste_report(damaged(p, "indices"))
+
     @reg("colander")
     def _(p, out, serial):
         from amr_kitchen.colander import Colander
